@@ -131,6 +131,46 @@ def in_domain(t, r2):
     return t <= 1.0 if r2 else True
 
 
+BOUNDARY_QUICK = [127, 128, 129, 255, 256, 257]          # index space at integer-width boundaries (uint8 / int8 indices)
+BOUNDARY_THOROUGH = [511, 512, 513, 1023, 1024, 1025]
+KMAX_BIG = 10                                            # large-n cases: the fixed-size family is kept within S_2 .. S_KMAX_BIG
+
+
+def big_curve(rng, n):
+    """smooth / few-knee performance curves for the large-n stratum (few retained points, so the oracle tables stay small)"""
+    fam = rng.choice(['hyper', 'expdecay', 'knees', 'steps'])
+    xs = [float(i + 1) for i in range(n)] if rng.random() < 0.7 else gen.xs_increasing(rng, n, 'int')
+    if fam == 'hyper':
+        a = rng.choice([10.0, 100.0, 1000.0])
+        ys = [a / (x - xs[0] + 1.0) for x in xs]
+    elif fam == 'expdecay':
+        a = rng.uniform(2.0, 12.0) / (xs[-1] - xs[0])
+        c0 = rng.choice([0.0, 0.05, 1.0])
+        ys = [c0 + math.exp(-a * (x - xs[0])) for x in xs]
+    elif fam == 'knees':
+        nb = rng.randint(1, 4)
+        bps = sorted(rng.sample(range(1, n - 1), nb))
+        slopes = sorted([float(rng.choice([1, 2, 3, 5, 8, 13, 21])) for _ in range(nb + 1)], reverse=True)
+        ys, y, j = [], 0.0, 0
+        for i in range(n):
+            if i:
+                y += slopes[j] * (xs[i] - xs[i - 1])
+            ys.append(y)
+            if j < nb and i == bps[j]:
+                j += 1
+        top = max(ys)
+        ys = [top - v for v in ys]               # decreasing, convex, ends at 0
+    else:
+        levels = sorted({rng.randint(0, 20) for _ in range(rng.randint(2, 5))}, reverse=True)
+        cuts = sorted(rng.sample(range(1, n - 1), len(levels) - 1))
+        ys, j = [], 0
+        for i in range(n):
+            if j < len(cuts) and i == cuts[j]:
+                j += 1
+            ys.append(float(levels[j]))
+    return 'big-' + fam, [[float(x), float(y)] for x, y in zip(xs, ys)]
+
+
 class C01:
     id = 'C01'
     judge_module = 'Run.JudgeC01'
@@ -138,7 +178,10 @@ class C01:
             'every 6th case the default configuration so that min_point_rdp is also compared with its model) x threshold (from the observed '
             'segment costs / global costs of the curve, their nextafter neighbours, a grid) x k, min_points in 0..n+1 (round-robin) x a '
             'threshold list; all five simplifiers are run, their while-loop iterations counted through sys.monitoring; '
-            'non-trivial = n >= 3 and rdp.rdp performed at least one split; distinct by (points, configuration, t, k, m)')
+            'plus a same-object stream (one case in nine: every simplifier first runs on a work buffer holding another curve of the same '
+            'shape, the buffer is refilled in place and the second call is judged; tables from a separate copy) and an index-boundary '
+            'stratum (n in {127,128,129,255,256,257}, thorough also {511,...,1025}; smooth / few-knee curves, parameters kept within '
+            'S_2..S_10 so the tables stay small); non-trivial = n >= 3 and rdp.rdp performed at least one split; distinct by (points, configuration, t, k, m)')
     assumptions = ['threshold domain: t > 0 (t <= 1 for R2), evaluated per case as curved(trivial cost) = false; k, min_points >= 0',
                    'shape of the distance primitive: len(distance_points(points[l:r], ..)) = r - l, evaluated per table entry',
                    'cases in which an order priority is NaN are judged on the predicate only for the fixed-size family (Python\'s sort on NaN keys is not modelled)']
@@ -172,6 +215,21 @@ class C01:
                 cases.append({'points': pts, 'family': fam, 'dist': cf[0], 'cost': cf[1], 'order': cf[2],
                               'k': i % (n + 2), 'm': (i // 3) % (n + 2),
                               't_mode': ['obs', 'obs_up', 'glob', 'obs_dn', 'grid', 'glob'][i % 6], 't_seed': rng.randrange(1 << 30)})
+            # same-object stream (hidden state keyed on object identity): each simplifier is first run on a work buffer holding
+            # another curve of the same shape; the buffer is refilled IN PLACE with this case's curve and the second call is judged
+            if i % 9 == 4 and n >= 3:
+                cases[-1]['points_a'] = make_curve(rng, n)[1]
+        # index-space boundaries: curve sizes around 2^k (the largest index n-1 is the maximum of an 8/16-bit integer type or next to it)
+        sizes = BOUNDARY_QUICK + [128, 256] if tier != 'thorough' else BOUNDARY_QUICK * 2 + BOUNDARY_THOROUGH * 2
+        big = []
+        for b, n in enumerate(sizes):
+            fam, pts = big_curve(rng, n)
+            cf = DEFAULT if b % 3 == 1 else CONFIGS[(7 * b + j) % len(CONFIGS)]
+            big.append({'points': pts, 'family': fam, 'dist': cf[0], 'cost': cf[1], 'order': cf[2], 'kmax': KMAX_BIG,
+                        'k': 3 + (b * 5) % (KMAX_BIG - 2), 'm': (b * 3) % (KMAX_BIG + 1), 't_mode': 'big', 't_seed': rng.randrange(1 << 30)})
+        step = max(1, len(cases) // (len(big) + 1))
+        for b, c in enumerate(big):               # spread over the shards (their tables are large)
+            cases.insert(min(len(cases), (b + 1) * step + b), c)
         return cases
 
     def warmup(self):
@@ -204,11 +262,20 @@ class C01:
         D, O, M = rdp.Distance[c['dist']], rdp.Order[c['order']], metrics.Metrics[c['cost']]
         rnd = random.Random(c['t_seed'])
 
-        # the implementation's chain rdp_fixed(points, k), k = 2..n: where the fixed-size family's oracles are needed
+        kmax = min(n, c.get('kmax') or n)
+        big = kmax < n
+        # the implementation's chain rdp_fixed(points, k), k = 2..kmax: where the fixed-size family's oracles are needed
+        # (only the index list is used here; the removed table of these calls is not what is judged)
         chain = []
-        for k in range(2, n + 1):
-            o = as_out(*timed(rdp.rdp_fixed, pts, k, D, O))
-            chain.append(o[0] if o else [])
+        for k in range(2, kmax + 1):
+            st, o = timed(rdp.rdp_fixed, pts, k, D, O)
+            red = None
+            if st == 'ok':
+                try:
+                    red = as_nat_list(o[0])
+                except Exception:
+                    red = None
+            chain.append(red or [])
         gt = {}
         for S in chain:
             if len(S) >= 2 and all(0 <= i < n for i in S) and tuple(S) not in gt:
@@ -216,6 +283,36 @@ class C01:
                 if st == 'ok':
                     gt[tuple(S)] = float(v)
 
+        def stops_within(t, cost_r2, table):
+            """some chain member within the tables is on the accepting side of t (so global RDP stops there or earlier)"""
+            for S in chain:
+                v = table.get(tuple(S))
+                if v is not None and not ((v < t) if cost_r2 else (v >= t)):
+                    return True
+            return False
+
+        def big_thresholds(cost_r2):
+            out = []
+            for S in chain[1:]:
+                v = gt.get(tuple(S))
+                if v is None or v != v:
+                    continue
+                t = v if cost_r2 else math.nextafter(v, math.inf)
+                if in_domain(t, cost_r2) and stops_within(t, cost_r2, gt):
+                    out.append(t)
+            return out
+
+        if big and 't' not in c:
+            cand = big_thresholds(r2)
+            c['t'] = rnd.choice(cand) if cand else (-1e300 if r2 else 1e300)
+        if big and 'ts' not in c:
+            if (c['dist'], c['cost'], c['order']) == DEFAULT:
+                cand = big_thresholds(False)
+                c['ts'] = [rnd.choice(cand) for _ in range(rnd.randint(1, 3))] if cand else []
+            else:
+                c['ts'] = [rnd.choice([0.5, 0.2, 0.1]) for _ in range(rnd.randint(0, 2))]
+        if big and not (stops_within(c['t'], r2, gt) and c['k'] <= kmax and c['m'] <= kmax):
+            c['skip'] = 'large-n case whose parameters cannot be kept within the tables'
         if 't' not in c:
             if c.get('t_mode') == 'glob':
                 cand = []
@@ -239,11 +336,22 @@ class C01:
         t, k, m, ts = c['t'], c['k'], c['m'], c['ts']
 
         lc = loop_counter()
-        calls = [('rdp', rdp.rdp, (pts, t, D, M)), ('rdp_fixed', rdp.rdp_fixed, (pts, k, D, O)),
-                 ('grdp', rdp.grdp, (pts, t, D, M, O)), ('mp_grdp', rdp.mp_grdp, (pts, t, m, D, M, O)),
-                 ('min_point_rdp', rdp.min_point_rdp, (pts, list(ts), m))]
+        # every oracle value above was computed on the oracle's own copy of the curve; in the same-object stream the
+        # implementation only ever sees the work buffer `arg`
+        reuse = c.get('points_a') is not None and len(c['points_a']) == n
+        arg = pts
+        if reuse:
+            arg = np.empty((n, 2))
+            pts_a = np.array(c['points_a'], dtype=float)
+        calls = [('rdp', rdp.rdp, (arg, t, D, M)), ('rdp_fixed', rdp.rdp_fixed, (arg, k, D, O)),
+                 ('grdp', rdp.grdp, (arg, t, D, M, O)), ('mp_grdp', rdp.mp_grdp, (arg, t, m, D, M, O)),
+                 ('min_point_rdp', rdp.min_point_rdp, (arg, list(ts), m))]
         res = {}
         for name, f, args in calls:
+            if reuse:
+                arg[:] = pts_a
+                timed(f, *args)          # the history: same array object, previous contents
+                arg[:] = pts             # refilled in place
             lc.reset()
             st, out = timed(f, *args)
             res[name] = {'out': as_out(st, out), 'iters': lc.iters(),
@@ -300,8 +408,11 @@ class C01:
             o = r['out']
             return '(Res %s %s)' % ('None' if o is None else '(Some (%s, %s))' % (cnats(o[0]), crows(o[1])), cnats(r['iters']))
         dflt = (c['dist'], c['cost'], c['order']) == DEFAULT
-        return 'CAll %s %s %s %s %s %s %s %s %s %s %s %s' % (
-            cnat(n), cbool(c['cost'] == 'r2'), fl(c.get('t', 0.01)), cnat(c['k']), cnat(c['m']), cfls(c.get('ts', [])), cbool(dflt),
+        if c.get('skip'):
+            n = 0                                   # outside the domain (code 600): never a verdict
+        return 'CAll %s %s %s %s %s %s %s %s %s %s %s %s %s' % (
+            cnat(n), cbool(c['cost'] == 'r2'), fl(c.get('t', 0.01)), cnat(c['k']), cnat(c['m']), cnat(c.get('kmax') or n),
+            cfls(c.get('ts', [])), cbool(dflt),
             dt, ct, pt, gt, ' '.join(cres(c['res'][s]) for s in SIMPS))
 
     def nontrivial_key(self, c):
@@ -314,7 +425,9 @@ class C01:
         n = c.get('n', 0)
         h = {'n': min(n, 64) // 4 * 4, 'config': '%s/%s/%s' % (c['dist'], c['cost'], c['order']), 't_mode': c.get('t_mode'),
              'family': c.get('family'), 'nan_priority': any(v != v for _, _, v in c.get('pt', [])),
-             'prio_consistent': c.get('prio_consistent', True), 'len_ts': len(c.get('ts', []))}
+             'prio_consistent': c.get('prio_consistent', True), 'len_ts': len(c.get('ts', [])),
+             'same_object_refill': c.get('points_a') is not None, 'skipped': bool(c.get('skip')),
+             'boundary_n': n if c.get('kmax') else 0, 'table_floats': min(sum(len(d) for _, _, d in c.get('dt', [])) // 1000, 20)}
         for s in SIMPS:
             r = c['res'][s]
             h['status_' + s] = r['status'].split(' ')[0]
@@ -328,22 +441,30 @@ class C01:
     def shrink(self, c):
         out = []
         pts = c['points']
-        base = {k: v for k, v in c.items() if k not in ('dt', 'ct', 'pt', 'gt', 'res', 'n', 'prio_consistent', 'harness_timeout')}
+        if c.get('kmax'):
+            return out        # index-boundary stratum: the size is the point of the case
+        base = {k: v for k, v in c.items() if k not in ('dt', 'ct', 'pt', 'gt', 'res', 'n', 'prio_consistent', 'harness_timeout', 'skip')}
         for j in range(len(pts)):
             if len(pts) > 2:
                 d = dict(base)
                 d['points'] = pts[:j] + pts[j + 1:]
+                if c.get('points_a') is not None:
+                    d['points_a'] = c['points_a'][:j] + c['points_a'][j + 1:]
                 d['k'] = min(c['k'], len(pts))
                 d['m'] = min(c['m'], len(pts))
                 out.append(d)
         return out
 
     def sample(self, c):
-        return {'points': c['points'], 'config': [c['dist'], c['cost'], c['order']], 't': c.get('t'), 'k': c['k'], 'm': c['m'],
+        return {'points': c['points'] if len(c['points']) <= 64 else c['points'][:8] + ['... %d points' % len(c['points'])], 'points_a': c.get('points_a'), 'config': [c['dist'], c['cost'], c['order']], 't': c.get('t'), 'k': c['k'], 'm': c['m'],
                 'ts': c.get('ts'), 'res': c['res']}
 
     def describe(self, c):
-        return ('P = np.array(%s); D, M, O = rdp.Distance.%s, metrics.Metrics.%s, rdp.Order.%s; t = float.fromhex(%r); '
+        pre = ''
+        if c.get('points_a') is not None:
+            pre = ('SAME-OBJECT HISTORY: before each call below, P (one array object) held np.array(%s), the same call was made, and P '
+                   'was refilled in place (P[:] = ...) with the points shown.  ' % (c['points_a'],))
+        return (pre + 'P = np.array(%s); D, M, O = rdp.Distance.%s, metrics.Metrics.%s, rdp.Order.%s; t = float.fromhex(%r); '
                 'rdp.rdp(P, t, D, M); rdp.rdp_fixed(P, %d, D, O); rdp.grdp(P, t, D, M, O); rdp.mp_grdp(P, t, %d, D, M, O); '
                 'rdp.min_point_rdp(P, %r, %d)  # statuses: %s'
                 % (c['points'], c['dist'], c['cost'], c['order'], float(c.get('t', 0.01)).hex(), c['k'], c['m'], c.get('ts', []), c['m'],
